@@ -200,6 +200,8 @@ ANY_METHODS.update({
     # a runner reached through an executor's back reference (`self.runner.run / .map`): any outcome of a nested run
     "run": {"pure": False, "returns": OBJ("RunResult"), "raises": ["BaseException"]},
     "map": {"pure": False, "returns": SEQ(OBJ("RunResult")), "raises": ["BaseException"]},
+    # a cache backend reached through an untyped parameter: the write may fail, returns nothing
+    "set": {"pure": False, "returns": NONE_T, "raises": ["Exception"]},
 })
 ANY_ATTRS.update({"runner": ANY, "map_config": ANY})
 OPAQUE = {
